@@ -135,8 +135,11 @@ class KRun:
         flags = {L: (sc.cancel_called, sc.shield) for L, sc in self.scope_objs.items()}
         self.history.append((self.now(), self.loop.cycle if self.loop else 0, flags) + a)
 
+    unit = 1.0  # seconds per program time unit (1 on the virtual clock)
+    t0 = 0.0
+
     def now(self) -> int:
-        return int(round(self.loop.time())) if self.loop else 0
+        return int(round((self.loop.time() - self.t0) / self.unit)) if self.loop else 0
 
     def reg_scope(self, sc: Any) -> int:
         L = self.nL
@@ -226,7 +229,7 @@ class KRun:
         if d is None:
             return math.inf, "-"
         v = self.now() + int(d)
-        return float(v), str(v)
+        return self.t0 + float(v) * self.unit, str(v)
 
     # ------------------------------------------------------------------ interpreter
     async def body(self, me: int, stmts: list) -> None:
@@ -239,7 +242,7 @@ class KRun:
         if k == "yield":
             await self.op(me, f"{me} yield", "resumed", asyncio.sleep(0))
         elif k == "sleep":
-            await self.op(me, f"{me} sleep {s[1]}", "done", anyio.sleep(s[1]))
+            await self.op(me, f"{me} sleep {s[1]}", "done", anyio.sleep(s[1] * self.unit))
         elif k == "await":
             # anyio.Event.wait(): a set event is a plain checkpoint, otherwise a fresh future per waiter
             ev = self.events[s[1]]
@@ -416,7 +419,7 @@ class KRun:
     async def failafter_stmt(self, me: int, opts: dict, body: list) -> None:
         """`with anyio.fail_after(d):` -- a deadline scope plus the TimeoutError conversion"""
         d = opts.get("deadline")
-        cm = anyio.fail_after(d)
+        cm = anyio.fail_after(None if d is None else d * self.unit)
         sc = cm.__enter__()
         L = self.reg_scope(sc)
         self.scope_by_key[opts["k"]] = (L, sc)
@@ -527,8 +530,11 @@ class KRun:
         L = self.nL
         self.nL += 1
 
-        async def fn(*, task_status: Any) -> None:
-            await self.child_main(T, name, task_status)
+        called: list[bool] = []
+
+        def fn(*, task_status: Any) -> Any:
+            called.append(True)  # start() got as far as creating the child's coroutine
+            return self.child_main(T, name, task_status)
 
         i = self.emit(f"{me} start {G} {T} {L}", None)
         self.open[me] = i
@@ -537,7 +543,7 @@ class KRun:
         try:
             handle = await tg.start(fn, return_handle=True)
         except BaseException as e:
-            if self.lines[i][1] == "?":  # refused synchronously
+            if not called:  # refused synchronously: the group is not active
                 self.lines[i][1] = "rterr" if isinstance(e, RuntimeError) else "done " + owncode(e)
                 self.open[me] = None
                 self.nT -= 1
@@ -612,7 +618,7 @@ class KRun:
             self.emit("0 finish -", "ok")
             self.hist("finish", 0, "-")
         # let the loop run idle for a few cycles: residue (C05) shows up here
-        self.post_idle["cycle_at_finish"] = self.loop.cycle
+        self.post_idle["cycle_at_finish"] = getattr(self.loop, "cycle", 0)
 
     def run(self) -> "KRun":
         self.emit("new", "ok")
@@ -660,3 +666,60 @@ class KRun:
 
 async def _await(f: asyncio.Future) -> None:
     await f
+
+
+class KRunUV(KRun):
+    """The same interpreter on a real uvloop (no handle tracing, no model replay): real time scaled
+    to `unit` seconds per program time unit; the history is judged by the schedule-independent
+    oracles only.  A run that does not finish within `limit` seconds is abandoned (counted)."""
+
+    unit = 0.004
+
+    def __init__(self, program: dict, limit: float = 4.0):
+        super().__init__(program, queries=False)
+        self.limit = limit
+        self.cycle_count = 0
+
+    def hist(self, *a: Any) -> None:
+        flags = {L: (sc.cancel_called, sc.shield) for L, sc in self.scope_objs.items()}
+        self.history.append((self.now(), 0, flags) + a)
+
+    def run(self) -> "KRunUV":
+        import uvloop
+
+        lp = uvloop.new_event_loop()
+        self.loop = lp  # type: ignore[assignment]
+        self.t0 = lp.time()
+        self.root_started = True
+
+        async def guarded() -> None:
+            task = asyncio.current_task()
+            assert task is not None
+            self.task_label[id(task)] = 0
+            self.task_obj[0] = task
+            await self.main()
+
+        try:
+            asyncio.set_event_loop(lp)
+            t = lp.create_task(guarded())
+            try:
+                lp.run_until_complete(asyncio.wait_for(asyncio.shield(t), self.limit))
+            except (asyncio.TimeoutError, TimeoutError):
+                self.deadlock = True
+                self.error = None
+                t.cancel()
+                for task in asyncio.all_tasks(lp):
+                    task.cancel()
+                try:
+                    lp.run_until_complete(asyncio.sleep(0.01))
+                except BaseException:
+                    pass
+            except BaseException:
+                pass
+        finally:
+            asyncio.set_event_loop(None)
+            try:
+                lp.close()
+            except Exception:
+                pass
+        return self
